@@ -55,6 +55,10 @@ func NewHTTPS2HTTPPlugin(_ PluginContext, options v1.ClientPluginOptions) (Plugi
 		l:    listener,
 	}
 
+	// the default transport, but without adding "Accept-Encoding: gzip" to requests and decoding responses
+	tr := http.DefaultTransport.(*http.Transport).Clone()
+	tr.DisableCompression = true
+
 	rp := &httputil.ReverseProxy{
 		Rewrite: func(r *httputil.ProxyRequest) {
 			r.Out.Header["X-Forwarded-For"] = r.In.Header["X-Forwarded-For"]
@@ -69,6 +73,7 @@ func NewHTTPS2HTTPPlugin(_ PluginContext, options v1.ClientPluginOptions) (Plugi
 				req.Header.Set(k, v)
 			}
 		},
+		Transport:  tr,
 		BufferPool: pool.NewBuffer(32 * 1024),
 		ErrorLog:   stdlog.New(log.NewWriteLogger(log.WarnLevel, 2), "", 0),
 	}
